@@ -251,6 +251,9 @@ def inner_factory(handler, registry):
         if site.get('touch'):
             w.log['touched'] = request.response
             request.response.headers['X-Touched'] = '1'
+            request.response.status_int = 201
+            request.response.headers['Cache-Control'] = 'max-age=3600'
+            request.response.set_cookie('pre', 'failure')
         try:
             maybe_raise(w, 'tween')
             return handler(request)
@@ -371,7 +374,19 @@ def build_app(case):
         tag = st['tag']
         body = st['body']
         renderer = None
-        if body[0] == 'respond':
+        via = st.get('via') if (body[0] == 'respond' and stmt_xonly(st) and stmt_isexc(st)) else None
+        if via:
+            # an exception view that builds on request.response: returns it ('reqresp') or lets the string renderer fill it
+            if via == 'renderer':
+                renderer = 'string'
+
+            def view(context, request, tag=tag, via=via):
+                record_seen(w, tag, context, request)
+                if on_exc_path(w):
+                    w.log['view_resp'] = request.response
+                request.response.headers['X-Tag'] = 'V%d' % tag
+                return request.response if via == 'reqresp' else 'V%d' % tag
+        elif body[0] == 'respond':
             def view(context, request, tag=tag, touch=bool(st.get('touch'))):
                 record_seen(w, tag, context, request)
                 if touch and on_exc_path(w):
@@ -590,7 +605,11 @@ def observe(w, case):
         seen = [None if s['context'] is NOCTX else oid(w, s['context']), oid(w, s['exception']), oid(w, s['exc_info']), oid(w, s['response'])]
     after = lg.get('after_policy') if level == 'policy' else lg.get('after')
     attrs = None if after is None else [oid(w, after[0]), oid(w, after[1]), oid(w, after[2])]
-    return {'out': out, 'tout': tout, 'seen': seen, 'attrs': attrs, 'caught': oid(w, lg.get('passing')),
+    hl = sh.get('headers') or []
+    marks = None
+    if raised is None and sh.get('status'):
+        marks = {'status': int(sh['status'][:3]), 'pre_failure_headers': sorted(k for k, v in hl if k in ('X-Touched', 'Cache-Control') or (k == 'Set-Cookie' and v.startswith('pre=')))}
+    return {'out': out, 'tout': tout, 'seen': seen, 'attrs': attrs, 'marks': marks, 'caught': oid(w, lg.get('passing')),
             'n_exc_view_calls': len(exc_seen), 'env': env, 'raised': raised}
 
 
@@ -682,7 +701,8 @@ def model_input(w, case, obs):
                       'accept': c03.offer_data(w, st['accept'], ids) if st.get('accept') is not None else None,
                       'perm': 'unset' if perm is None else ('npr' if perm == 'npr' else 'named'),
                       'isexc': stmt_isexc(st), 'xonly': stmt_xonly(st), 'tag': st['tag'], 'body': body_json(w, st),
-                      'touch': bool(st.get('touch')) and st['body'][0] != 'default',
+                      'touch': (bool(st.get('touch')) or bool(st.get('via') and st['body'][0] == 'respond' and stmt_xonly(st) and stmt_isexc(st)))
+                               and st['body'][0] != 'default',
                       'vk': st.get('vk', 'fn2') if st['body'][0] != 'default' else 'fn2'})
     world = {'policy': bool(case.get('policy', True)), 'defperm': bool(case.get('defperm')),
              'nf': exc_record(w, hx.HTTPNotFound(), ID_NF), 'mm': exc_record(w, PredicateMismatch(), ID_MM),
@@ -922,11 +942,20 @@ def judge(w, case, obs, stats, V, E, out, obj, seen_entries, before, after, wr, 
         if s['tag'] != out[2] or (s['context'] is not NOCTX and s['context'] is not E) or s['exception'] is not E or s['exc_info'] is not E or not s['exc_info_ok'] \
                 or s['prop_exception'] is not E:
             return V('the exception view did not see the exception as context / request.exception / request.exc_info', exp)
+        if s['response'] is not None:
+            return V('inside the exception view request.response is not a fresh one: the pre-failure response object was still on the request', exp)
         wst = ok_tags[out[2]]['st']
         if wst.get('vk', 'fn2') in CTX_KINDS and wst['body'][0] != 'default' and s['context'] is NOCTX:
             return V('a view callable that takes a context was not handed one', exp)
     if after is None or after[0] is not E or after[3] is not E:
         return V('request.exception is not the rendered exception afterwards', exp)
+    if after[2] is not before[2]:
+        return V('request.response is not the pre-failure object afterwards', exp)
+    marks = obs.get('marks')
+    if out[1] == 'view' and marks and out == obs['out'] and ok_tags[out[2]]['st']['body'][0] == 'respond':
+        if marks['status'] != 200 or marks['pre_failure_headers']:
+            return V('the response produced by the exception view carries the pre-failure status / headers of request.response',
+                     dict(exp, status=200, pre_failure_headers=[]))
     if after[1] is not E:
         return V('request.exc_info does not hold the rendered exception afterwards', exp)
     return None
@@ -1073,7 +1102,7 @@ def _tween_level(w, case, obs, stats, V, E, tout, left, wr, md, ecase, matched):
     prior = lg.get('prior')
     tseen = [s_ for s_ in lg['seen'] if s_['excpath'] and s_['level'] == 'tween']
     cont_ctx = w.root if lg.get('ctx_at_exc') else E
-    return judge(w, case, obs, stats, V, E, tout, left[1] if left else None, tseen, (prior, prior, None, prior), lg.get('after'),
+    return judge(w, case, obs, stats, V, E, tout, left[1] if left else None, tseen, (prior, prior, lg.get('touched'), prior), lg.get('after'),
                  wr, md, matched, cont_ctx, 'tween')
 
 
@@ -1252,7 +1281,8 @@ def gen_app(rng, big=False):
             accept = accept      # default_exceptionresponse_view with predicates is fine
         st.update({'route': route, 'opts': o, 'not': notted, 'accept': accept, 'tag': tag,
                    'touch': st['body'][0] != 'default' and rng.random() < 0.25,
-                   'vk': house if rng.random() < 0.6 else rng.choice(VIEW_KINDS)})
+                   'vk': house if rng.random() < 0.6 else rng.choice(VIEW_KINDS),
+                   'via': rng.choice([None, None, 'reqresp', 'renderer'])})
         stmts.append(st)
     site = {'at': site_at, 'exc': raised, 'prior': rng.random() < 0.3, 'touch': rng.random() < 0.25}
     root_same = bool(root is not None and rng.random() < 0.6)
@@ -1420,6 +1450,12 @@ def shrink_case(case, pred):
             if ok(c):
                 cur = c
     for i, st in enumerate(cur['stmts']):
+        for key_, val_ in (('via', None), ('vk', 'fn2')):
+            if st.get(key_) not in (None, val_):
+                c = dict(cur, stmts=cur['stmts'][:i] + [dict(st, **{key_: val_})] + cur['stmts'][i + 1:])
+                if ok(c):
+                    cur = c
+                    st = cur['stmts'][i]
         if st.get('touch'):
             c = dict(cur, stmts=cur['stmts'][:i] + [dict(st, touch=False)] + cur['stmts'][i + 1:])
             if ok(c):
@@ -1513,7 +1549,8 @@ def run(ctx):
             'self_response_status': {}, 'commit_mode': {},
             'above_site': {}, 'execution_policy': {}, 'policy_level_renderings': 0, 'exception_view_touched_response': 0,
             'carries_earlier_exception_then_no_match': 0, 'containment_on_exception_view': 0, 'physical_path_on_exception_view': 0,
-            'view_kind': {}, 'answering_exception_view_kind': {}, 'same_class_raised_then_rendered': 0}
+            'view_kind': {}, 'answering_exception_view_kind': {}, 'answering_view_builds_on_request_response': {},
+            'touched_then_http_exception_rendered_by_view': 0, 'same_class_raised_then_rendered': 0}
     for case, res, mo in zip(cases, results, model):
         m = compare_model(case, res, mo)
         if m:
@@ -1563,6 +1600,10 @@ def run(ctx):
             ws_ = [s_ for s_ in case['stmts'] if s_['tag'] == obs['out'][2]]
             if ws_:
                 vfutil.bump(dist['answering_exception_view_kind'], ws_[0].get('vk', 'fn2'))
+                if ws_[0].get('via') and ws_[0]['body'][0] == 'respond' and stmt_xonly(ws_[0]) and stmt_isexc(ws_[0]):
+                    vfutil.bump(dist['answering_view_builds_on_request_response'], ws_[0]['via'])
+                if case['site'].get('touch') and st.get('E_http'):
+                    dist['touched_then_http_exception_rendered_by_view'] += 1
                 cid_ = obs['caught']
                 if ws_[0].get('vk') == 'cls2' and isinstance(cid_, int) and ID_VIEWEXC <= cid_ < ID_VIEWEXC + ID_AGAIN and \
                         [s_ for s_ in case['stmts'] if s_['tag'] == cid_ - ID_VIEWEXC and s_.get('vk') == 'cls2']:
